@@ -5,7 +5,8 @@ read off the sources on every run, so that the descriptors d_<table> follow the 
     check_offsets calls, c/tskit/tables.c);
   * whether tsk_<t>_table_add_row asserts offset[num_rows] == length (tsk_bug_assert);
   * whether parse_<t>_table_dict (python/lwt_interface/tskit_lwt_interface.h) passes
-    check_num_rows = true when it reads metadata_offset.
+    check_num_rows = true when it reads metadata_offset;
+  * whether BaseTable.__getitem__ guards `ret.metadata_schema = self.metadata_schema`.
 All names are prefixed c13_.  Fail closed: any shape that is not recognised aborts."""
 import re
 
@@ -73,4 +74,16 @@ def facts(read, die, define):
             is_first = first.group(1) == "metadata_offset" or (first.group(1) == "metadata" and len(cols) == 1 and t == "population")
             checked = m.group(1) == "true" or is_first
             out.append("Definition c13_md_offset_length_checked_%s : bool := %s." % (t, "true" if checked else "false"))
+    # BaseTable.__getitem__ (slice | mask | ids): is the copy of metadata_schema guarded for
+    # tables without that attribute (ProvenanceTable)?
+    py = read("python/tskit/tables.py")
+    m = re.search(r"def __getitem__\(self, index\):.*?\n    def __setitem__", py, re.S)
+    if not m:
+        die("c13: cannot find BaseTable.__getitem__")
+    g = m.group(0)
+    if not re.search(r"ret\.metadata_schema = self\.metadata_schema", g):
+        die("c13: BaseTable.__getitem__ no longer copies metadata_schema")
+    guarded = bool(re.search(r'if hasattr\(self, "metadata_schema"\):[^\n]*\n\s+ret\.metadata_schema = self\.metadata_schema', g)
+                   or re.search(r"try:\s*\n\s+ret\.metadata_schema = self\.metadata_schema\s*\n\s+except AttributeError", g))
+    out.append("Definition c13_getitem_schema_guarded : bool := %s." % ("true" if guarded else "false"))
     return out
